@@ -16,7 +16,7 @@ def history(rng, k, emu, rate=44100):
 
 
 def own_ops(rng, k):
-    ops = []
+    ops = ["%d pc %d %d" % (k, ch, rng.randrange(128)) for ch in (0, 1)]
     for _ in range(rng.choice([6, 10])):
         c = rng.random()
         if c < 0.5:
@@ -31,10 +31,13 @@ def own_ops(rng, k):
     return ops
 
 
-def other_ops(rng, k, emu):
+def other_ops(rng, k, emu, which=None):
     """what another instance may do in between: create, configure, play, close"""
-    return rng.choice([["%d new 44100 %d 1" % (k, emu), "%d bank BANK" % k, "%d on 0 60 127" % k, "%d gen 512" % k],
+    pick = rng.choice if which is None else (lambda l: l[which % len(l)])
+    return pick([["%d new 44100 %d 1" % (k, emu), "%d bank BANK" % k, "%d on 0 60 127" % k, "%d gen 512" % k],
                        ["%d new 48000 %d 2" % (k, emu), "%d bank BANK" % k, "%d chiptype %d" % (k, rng.choice([0, 1])), "%d gen 300" % k, "%d close" % k],
+                       ["%d new %d %d 1" % (k, rng.choice([8000, 96000, 192000]), emu), "%d runatpcm 1" % k, "%d bank BANK" % k, "%d on 0 64 127" % k, "%d gen 400" % k],
+                       ["%d new 44100 %d 2" % (k, emu), "%d bank BANK" % k, "%d chips 1" % k, "%d runatpcm %d" % (k, rng.choice([0, 1])), "%d reset" % k, "%d gen 256" % k, "%d close" % k],
                        ["%d gen 700" % k], ["%d emu %d" % (k, rng.choice(EMUS))], ["%d close" % k]])
 
 
@@ -49,7 +52,8 @@ def run(tier, replay=None):
         ctx.prove(MODULE)
     rng = ctx.rng
     quick = tier == "quick"
-    bank = c20.tone_bank().hex() if rng.random() < 0.5 else synth_gen.test_bank(rng, nmel=1, nperc=1, blanks=0)[0].hex()
+    # audible timbres with detune, LFO sensitivity and all algorithms: the repository's own GM bank (random test timbres are mostly silent); sometimes the pure tone bank
+    bank = c20.tone_bank().hex() if rng.random() < 0.25 else open(os.path.join(common.REPO, "fm_banks", "gm.wopn"), "rb").read().hex()
     nfail = 0
     known_hits = []
     cases = 0
@@ -75,8 +79,10 @@ def run(tier, replay=None):
         mine = [r for o, r in zip(mixed, res) if o.startswith("0 ")]
         if mine != ref:
             fail("corpus %s: instance 0's observations change when the other instances act in between" % os.path.basename(f), mixed)
+    mixed_seen = {}
     for emu in EMUS:
         for rep in range(1 if quick else 4):
+            mixed_seen[emu] = False
             own = ["0 new 44100 %d %d" % (emu, rng.choice([1, 2])), "0 bank " + bank] + own_ops(rng, 0) + ["0 digest"]
             ref = run_ops(own)
             again = run_ops(own)
@@ -86,12 +92,42 @@ def run(tier, replay=None):
             if ref[-1] != again[-1]:
                 fail("repeating the history of an instance (emulator %d) does not reproduce its audio / register stream: %s vs %s" % (emu, ref[-1], again[-1]), own); continue
             # other instances act between the calls
-            for other in (EMUS if not quick else rng.sample(EMUS, 3) + ([1, 8] if emu in (1, 8) else [])):
+            # a long-lived other instance of the same core in an unusual configuration, set up right after this one was created and only rendering
+            # from then on (what it wrote into anything shared stays in force while this instance plays)
+            setups = [["1 new %d %d 1" % (r, emu), "1 runatpcm 1", "1 bank BANK", "1 on 0 64 127", "1 gen 400"] for r in (8000, 96000, 192000)] + \
+                     [["1 new 48000 %d 2" % emu, "1 bank BANK", "1 chiptype 1", "1 chips 3", "1 on 0 64 127", "1 gen 300"],
+                      ["1 new 22050 %d 1" % emu, "1 bank BANK", "1 emu %d" % emu, "1 reset", "1 gen 300"]]
+            for su in (setups if not quick else rng.sample(setups[:3], 2) + rng.sample(setups[3:], 1)):
+                mixed = own[:2] + [x.replace("BANK", bank) for x in su]
+                for o in own[2:]:
+                    mixed.append(o)
+                    if rng.random() < 0.3:
+                        mixed.append("1 gen 300")
+                res = run_ops(mixed)
+                cases += 1
+                mine = [r for o, r in zip(mixed, res) if o.startswith("0 ")]
+                if any(r.startswith("fault=") for r in res):
+                    fail("implementation fault: %s" % next(r for r in res if r.startswith("fault=")), mixed); break
+                if mine != ref:
+                    k = next(i for i, (a, b) in enumerate(zip(mine, ref)) if a != b)
+                    msg = "instance with emulator %d gives %s instead of %s at its call %r while another instance of the same core (%s) exists" % (
+                        emu, mine[k][:60], ref[k][:60], own[k][:40], " / ".join(x[:24] for x in su[:2]))
+                    if emu in (1, 8):
+                        known_hits.append((msg, mixed))
+                    else:
+                        fail(msg, mixed)
+                    break
+            # another instance of the same core first (statics of a core are the likeliest shared cells): every kind of interference, in turn, at every point
+            for other in ([emu] + (EMUS if not quick else rng.sample(EMUS, 3) + ([1, 8] if emu in (1, 8) else []))):
                 mixed = []
+                same = other == emu and not mixed_seen.get(emu)
+                mixed_seen[emu] = True
+                nins = rng.randrange(7)
                 for o in own:
                     mixed.append(o)
-                    if rng.random() < 0.6:
-                        mixed += [x.replace("BANK", bank) for x in other_ops(rng, rng.choice([1, 2]), other)]
+                    if same or rng.random() < 0.6:
+                        mixed += [x.replace("BANK", bank) for x in other_ops(rng, rng.choice([1, 2]), other, which=(nins if same else None))]
+                        nins += 1
                 # instance 0's own observations
                 res = run_ops(mixed)
                 cases += 1
